@@ -184,6 +184,10 @@ def _render_file(R, path, repo, canary_fn, canary_kind, depth):
                         cur = sp.tail
                     elif d2 == 'exit':
                         cur = sp.exit
+                    elif d2.startswith('loopbody'):
+                        cur = sp.loopbody.setdefault(int(d2.split()[1]), [])
+                    elif d2.startswith('loopend'):
+                        cur = sp.loopend.setdefault(int(d2.split()[1]), [])
                     elif d2.startswith('loop'):
                         cur = sp.loops.setdefault(int(d2.split()[1]), [])
                     elif d2.startswith('before') or d2.startswith('after'):
